@@ -63,6 +63,10 @@ func (m ClientState) Validate() error {
 	if m.ChainId > math.MaxInt64 {
 		return sdkerrors.Wrap(ErrInvalidGenesisBlock, "chain id overflows int64")
 	}
+	// a consensus state at height 0-0 is rejected by the genesis validation of an export
+	if m.Header.Height.IsZero() {
+		return sdkerrors.Wrap(ErrInvalidGenesisBlock, "header height cannot be zero")
+	}
 	return m.Header.ValidateBasic()
 }
 
